@@ -157,8 +157,8 @@ def cases(tier):
         cs.append(Case(f"np21_w{w}", "case_np21_lf", {"n": 2, "window": w, "K": b["K"]}, timeout_s=3000))
     for w in b["windows"][:2] if tier == "quick" else b["windows"]:
         cs.append(Case(f"np24_interleaved_w{w}", "case_np24_lf", {"mapname": "interleaved", "window": w, "K": b["K"]}, timeout_s=3000))
-    if tier == "thorough":
-        cs.append(Case("np24_unbalanced_w1200", "case_np24_lf", {"mapname": "unbalanced", "window": 1200, "K": b["K"]}, timeout_s=3000))
+    # shanks holding different numbers of channels (every per-shank count must be the shank's own)
+    cs.append(Case("np24_unbalanced_w1200", "case_np24_lf", {"mapname": "unbalanced", "window": 1200, "K": 2 if tier == "quick" else b["K"]}, timeout_s=3000))
     return cs
 
 
@@ -195,7 +195,12 @@ if ns > 3_000_000: not_reproduced('too long to materialise')
 n = len(shank_of); nc = n + 1
 d = pathlib.Path(tempfile.mkdtemp()) / 's' / 'probe00'; d.mkdir(parents=True)
 rs = np.random.default_rng(0)
-data = (rs.normal(size=(ns, nc)) * 300).astype(np.int16); data[:, -1] = rs.integers(0, 65535, ns).astype(np.uint16).astype(np.int16)
+data = (rs.normal(size=(ns, nc)) * 300).astype(np.int16)
+# half of the channels swing between the rails (+-8000 of +-8192): legal content whose low-passed version overshoots
+tt = np.arange(ns)
+for c in range(0, n, 2):
+    data[:, c] = (8000 * np.sign(np.sin(2 * np.pi * (tt + 7 * c + 3) / 302.0) + 1e-9)).astype(np.int16)
+data[:, -1] = rs.integers(0, 65535, ns).astype(np.uint16).astype(np.int16)
 if np21:
     txt = sglx.imec_meta_text('NP2.1', [(0, i % 2, i // 2) for i in range(n)], ns=format(ns / 30000.0, '.12f'), fs_hz='30000', extra=['fileSHA1=ABCDEF', f'fileSizeBytes={{ns * nc * 2}}'])
 else:
